@@ -51,6 +51,11 @@ def one(root, sid):
                     # an xfail inside a parametrisation whose ids depend on the hash seed (a set of dtypes): the id
                     # that xfails differs from run to run, so it cannot be held against the change
                     passed.add(name)
+                elif "pyspark_pandas" in name and "test_nullable[" in name and any(
+                        "dtype=Timedelta64()" in ((ch.get("message") or "") + (ch.text or "")) for ch in tc):
+                    # the Timedelta64 case of this parametrisation always fails here (a pyspark AttributeError); which id it
+                    # gets depends on the hash seed (the baseline lists four such ids as flaky)
+                    passed.add(name)
             missing = sorted(STABLE - passed)
             chk = sh(f"cd {wt} && PYTHONPATH={wt} /venv/bin/python -c 'import pandera,sys;print(pandera.__file__)'")
             meta["suite"] = {"applied": True, "head": HEAD[:7], "passed": len(passed), "stable_pass": len(STABLE),
